@@ -170,6 +170,64 @@ func Run(name string) string {
 		y := <-c
 		z := <-c
 		return itoa(x) + itoa(y) + itoa(z)
+	case "send-on-closed": // sending on a closed channel panics, also from a select with a default arm
+		c := make(chan int, 1)
+		close(c)
+		res := ""
+		func() {
+			defer func() {
+				if recover() != nil {
+					res += "P"
+				}
+			}()
+			c <- 1
+			res += "ok"
+		}()
+		func() {
+			defer func() {
+				if recover() != nil {
+					res += "P"
+				}
+			}()
+			select {
+			case c <- 1:
+				res += "sent"
+			default:
+				res += "default"
+			}
+		}()
+		return res
+	case "recv-on-closed": // receiving from a closed channel yields the buffered values, then zero values with ok=false
+		c := make(chan int, 2)
+		c <- 7
+		close(c)
+		a, ok1 := <-c
+		b, ok2 := <-c
+		res := itoa(a) + itoa(b)
+		if ok1 {
+			res += "t"
+		} else {
+			res += "f"
+		}
+		if ok2 {
+			res += "t"
+		} else {
+			res += "f"
+		}
+		return res
+	case "close-closed": // closing twice panics
+		c := make(chan int)
+		close(c)
+		res := "ok"
+		func() {
+			defer func() {
+				if recover() != nil {
+					res = "P"
+				}
+			}()
+			close(c)
+		}()
+		return res
 	// ---- race-detector litmus: the outcome is irrelevant, the report matters
 	case "race-plain": // two unsynchronised writers
 		for i := 0; i < 2; i++ {
